@@ -166,6 +166,24 @@ def gen_case(rng, tier, idx):
             if name not in s_.get("events", []):
                 s_.setdefault("events", []).append(name)
                 break
+    if idx % 11 == 9 and len(mk) >= 2:
+        # a long run: one rule over all markets with a line that every fill reaches and a short halt; the markets start
+        # at the same price on the same grid, so that the same prices come back on other markets a hundred and more
+        # steps later (pams keeps its series in blocks of 100 steps)
+        for k in [k for k in cfg if k.startswith("HALT")]:
+            for s_ in cfg["simulation"]["sessions"]:
+                if k in s_.get("events", []):
+                    s_["events"].remove(k)
+            del cfg[k]
+        for m_ in mk:
+            cfg[m_]["tickSize"] = 1.0
+            cfg[m_]["marketPrice"] = 256.0
+        cfg["HALT0"] = {"class": "TradingHaltRule", "targetMarkets": list(mk), "triggerChangeRate": 0.0,
+                        "haltingTimeLength": rng.choice([0, 1])}
+        ss = cfg["simulation"]["sessions"]
+        del ss[1:]
+        ss[0].update({"iterationSteps": rng.choice([230, 260]), "withOrderPlacement": True, "withOrderExecution": True,
+                      "events": ["HALT0"]})
     if idx % 11 == 4 and len(mk) >= 2:
         # relay: ONE rule over all markets with a line that almost any fill crosses and a long halt; a halt that is
         # cut short by the end of the first session is followed, early in the next session, by a halt of another
